@@ -285,8 +285,9 @@ class AsyncBaseClient:
         variables: Dict[str, Any],
         **kwargs: Any,
     ) -> httpx.Response:
-        headers: Dict[str, str] = {"Content-Type": "application/json"}
-        headers.update(kwargs.get("headers", {}))
+        # header names are case-insensitive: a caller's "content-type" replaces the default
+        headers = httpx.Headers({"Content-Type": "application/json"})
+        headers.update(kwargs.get("headers"))
 
         merged_kwargs: Dict[str, Any] = kwargs.copy()
         merged_kwargs["headers"] = headers
